@@ -732,6 +732,23 @@ def run(c):
         name, b = bases[i % len(bases)]
         m, ch = mutate(c.rng, b, stats)
         muts.append(("mutation:%s:%s" % (name, json.dumps(ch, default=str)[:300]), m))
+    # every member whose values the schema enumerates, with an extended key (`credit-transfer+zz`): the
+    # library accepts regime/addon specific sub-keys for several of these, so the schema must keep them open
+    seen_ext = set()
+    for name, b in bases:
+        for path, parent, key, val in leaves(b):
+            nm = key if isinstance(key, str) else ""
+            if nm in ENUMS and isinstance(val, str) and val and (name.split("#")[0].split("/")[1] if "/" in name else "", tuple(map(str, path))) not in seen_ext:
+                if len(seen_ext) > (400 if quick else 10 ** 6):
+                    break
+                seen_ext.add((name.split("#")[0].split("/")[1] if "/" in name else "", tuple(map(str, path))))
+                m = copy.deepcopy(b)
+                pp = m
+                for p in path[:-1]:
+                    pp = pp[p]
+                pp[path[-1]] = val + "+" + c.rng.choice(["zz", "wallet", "x1"])
+                muts.append(("mutation:%s:%s" % (name, json.dumps([("enum-subkey+", path, pp[path[-1]])], default=str)[:300]), m))
+                stats["enum-subkey"] = stats.get("enum-subkey", 0) + 1
     for i in range(0, len(muts), 10000):
         judge(c, "mutations", muts[i:i + 10000], state)
     c.sample({"stream": "mutations", "change": muts[0][0], "document_schema": muts[0][1].get("$schema")}, limit=4)
